@@ -312,13 +312,16 @@ class CGMYModel(LevyModel):
 
         res = 0
         if y == 0:
-            res += -c * (np.log(1 + x / g) + np.log(1 - x / m))
+            res += -c * (np.log(1 + x / g) + np.log(1 - x / m)) - c * x * (
+                1 / m - 1 / g
+            )
         elif y == 1.0:
             res += c * (
                 (g + x) * np.log(g + x)
                 - g * np.log(g)
                 + (m - x) * np.log(m - x)
                 - m * np.log(m)
+                + x * (np.log(m) - np.log(g))
             )
         else:
             # adjustment for y >= 0 because of the center representation
